@@ -277,8 +277,15 @@ class FastFourierTransform(FourierTransform):
             else:
                 self.shift_input *= fftshift
 
-        # Apply weights for Fourier normalization.
-        self.shift_input *= self.weights
+        # Apply weights for Fourier normalization. Per-point weights act on the input samples;
+        # the cell area stays in shift_input so that backward() remains the adjoint sum.
+        if np.isscalar(self.weights):
+            self.shift_input *= self.weights
+            self.relative_weights = None
+        else:
+            cell_area = np.abs(np.prod(input_grid.delta))
+            self.shift_input *= cell_area
+            self.relative_weights = (np.asarray(self.weights) / cell_area).reshape(self.shape_in)
 
         # Calculate the shift array when the output grid was shifted compared to the native shift
         # expcted by the numpy FFT implementation.
@@ -321,11 +328,17 @@ class FastFourierTransform(FourierTransform):
         if self.cutout_input is None:
             self.internal_array[:] = field.reshape(self.shape_in)
 
+            if self.relative_weights is not None:
+                self.internal_array *= self.relative_weights
+
             if self.shift_output is not None:
                 self.internal_array *= self.shift_output.reshape(self.shape_in)
         else:
             self.internal_array[:] = 0
             self.internal_array[self.cutout_input] = field.reshape(self.shape_in)
+
+            if self.relative_weights is not None:
+                self.internal_array[self.cutout_input] *= self.relative_weights
 
             if self.shift_output is not None:
                 self.internal_array[self.cutout_input] *= self.shift_output.reshape(self.shape_in)
